@@ -349,6 +349,11 @@ pub fn msg_bytes(s: i64, j: i64, npk: i64) -> Vec<u8> {
 pub fn child_main(args: &[String]) {
     die_with_parent();
     verif::init();
+    // the library must not rely on SIGPIPE being ignored (the Rust runtime ignores it; a C host program does not)
+    unsafe {
+        libc::signal(libc::SIGPIPE, libc::SIG_DFL);
+    }
+
     let name = args[0].clone();
     let s: i64 = args[1].parse().unwrap();
     let npks: Vec<i64> = args[2].split(',').filter(|x| !x.is_empty()).map(|x| x.parse().unwrap()).collect();
@@ -419,6 +424,11 @@ fn recv_result(r: Result<SMsg, TryRecvError>) -> Value {
 pub fn run() {
     raise_nofile();
     verif::init();
+    // the library must not rely on SIGPIPE being ignored (the Rust runtime ignores it; a C host program does not)
+    unsafe {
+        libc::signal(libc::SIGPIPE, libc::SIG_DFL);
+    }
+
     let _ = ipc_channel::platform::verif_constants(4096);
     let gates = Gates::new();
     gates.install();
